@@ -4,7 +4,8 @@ import numpy as np
 
 from vf.core import stable_hash
 
-DATA_MODES = ["normal", "dups", "const", "grid", "far", "scaled"]
+DATA_MODES = ["normal", "dups", "const", "grid", "far", "scaled", "bow"]
+BOW_DIM = 48       # "bow": duplicated binary bag-of-words rows in 48 dimensions (the caller sets d = BOW_DIM)
 
 
 def rng_for(*parts):
@@ -25,6 +26,9 @@ def make_X(rng, n, d, mode):
     elif mode == "far":
         X = rng.randn(n, d)
         X[rng.rand(n) < 0.5] += 50.0
+    elif mode == "bow":
+        base = (rng.rand(max(2, n // 3), d) < 0.3).astype(float)
+        X = base[rng.randint(len(base), size=n)]
     elif mode == "scaled":
         X = rng.randn(n, d) * (10.0 ** rng.randint(-3, 4, size=d))
     else:
